@@ -1,0 +1,28 @@
+// SPDX-License-Identifier: MIT OR Apache-2.0
+
+//! Verification hooks (only compiled with `--cfg p2panda_p2panda_verif`): named schedule points.
+//!
+//! A schedule point is a no-op unless a callback was installed with [`set_yield_hook`]; the
+//! callback may block the calling thread, which lets a test harness decide which thread runs
+//! next and replay a chosen interleaving on the real code.
+use std::sync::{Arc, RwLock};
+
+type Hook = Arc<dyn Fn(&'static str) + Send + Sync>;
+
+static HOOK: RwLock<Option<Hook>> = RwLock::new(None);
+
+/// Installs (or removes) the callback invoked at every schedule point.
+pub fn set_yield_hook(hook: Option<Hook>) {
+    *HOOK.write().expect("yield hook lock") = hook;
+}
+
+/// Named schedule point.
+pub fn yield_point(name: &'static str) {
+    let hook = HOOK.read().expect("yield hook lock").clone();
+    if let Some(hook) = hook {
+        hook(name);
+    }
+}
+
+#[cfg(feature = "gossip")]
+pub use crate::gossip::VerifToGossipManager as ToGossipManager;
